@@ -20,28 +20,42 @@ def scheme_models(ctx: Ctx) -> dict[str, S.SchemeModel]:
 
 
 def alias_table(ctx: Ctx) -> tuple[Func, dict[str, str]]:
-    """alias string -> builder function name, read from the if/elif chain of schemes.get_scheme."""
+    """alias string -> builder function name: get_scheme is specialised (abstract evaluation, sa.av) for every
+    string constant of schemes.py; the builder whose code object ends up in the returned function is the target.
+    Independent of whether the aliases sit in an if/elif chain, a table or a dict."""
+    from sa import av
+    from sa import schemes_model as S
+
+    cached = ctx.__dict__.get("_alias_table")
+    if cached is not None:
+        return cached
     f = ctx.sm.func("schemes.py", "get_scheme")
+    builders = {b.name for b in S.scheme_builders(ctx.sm)}
+    cands = sorted({n.value for n in ast.walk(ctx.sm.module("schemes.py")) if isinstance(n, ast.Constant) and isinstance(n.value, str) and n.value.isidentifier()})
+    A = av.AV(ctx.sm)
     table: dict[str, str] = {}
-    for n in ast.walk(f.node):
-        if isinstance(n, ast.If):
-            t = n.test
-            aliases = []
-            if isinstance(t, ast.Compare) and len(t.ops) == 1 and isinstance(t.ops[0], ast.In) and isinstance(t.comparators[0], (ast.List, ast.Tuple, ast.Set)):
-                aliases = [const_str(e) for e in t.comparators[0].elts]
-            elif isinstance(t, ast.Compare) and len(t.ops) == 1 and isinstance(t.ops[0], ast.Eq):
-                aliases = [const_str(t.comparators[0])]
-            target = None
-            for st in n.body:
-                if isinstance(st, ast.Assign) and isinstance(st.value, ast.Name):
-                    target = st.value.id
-                elif isinstance(st, ast.Return) and isinstance(st.value, ast.Name):
-                    target = st.value.id
-            if target and aliases and all(a is not None for a in aliases):
-                for a in aliases:
-                    table[a] = target
+    values: dict[str, tuple] = {}
+    unknown = []
+    for a_ in cands:
+        v, _ = A.returned(f, {f.params[0]: av.C(a_)})
+        if v[0] == "raise":
+            continue
+        heads = {x[1].split(".")[0] for x in av.find_all(v, "sym")} & builders
+        if len(heads) == 1 and not av.has_unk(v):
+            table[a_] = heads.pop()
+            values[a_] = v
+        elif av.has_unk(v):
+            unknown.append(a_)
     if not table:
-        raise AnalysisError("could not read the alias table of schemes.get_scheme (no `scheme in [...]` chain found)")
+        if unknown:
+            # the selection is not understood: fall back to the builders' own names and say so
+            ctx.undecided(list(ctx.rules_applied)[-1] if ctx.rules_applied else "R?", f.key("alias-table"), "how get_scheme selects the builder is not understood; builders are taken by their own names")
+            table = {b: b for b in builders}
+        else:
+            raise AnalysisError("could not read the alias table of schemes.get_scheme (no string constant selects a builder)")
+    ctx.__dict__["_alias_table"] = (f, table)
+    ctx.__dict__["_alias_values"] = values
+    ctx.__dict__["_alias_attr_stores"] = list(A.attr_stores)
     return f, table
 
 
